@@ -60,12 +60,17 @@ class T(object):
 
 
 class TRange(object):
-  def __init__(self, n):
+  def __init__(self, n, pair=False):
     self.n = n
+    self.pair = pair    # items are (index, index * 2 + 1): a loop with a tuple target
 
 
 def trange(n):
   return TRange(n) if isinstance(n, T) else range(n)
+
+
+def tpairs(n):
+  return TRange(n, pair=True) if isinstance(n, T) else [(i, i * 2 + 1) for i in range(n)]
 
 
 class Loop(object):
@@ -206,7 +211,7 @@ class Backend(object):
     idx = T('ph', object())
     self._set(set_state, ph)
     cond = extra_test() if extra_test is not None else True
-    body(idx)
+    body((idx, idx * 2 + 1) if iter_.pair else idx)
     out = get_state()
     loop = Loop(init, ph, cond, out, n=iter_.n, idx_ph=idx)
     self._set(set_state, tuple(T('proj', loop, i) for i in range(len(init))))
